@@ -344,8 +344,7 @@ pub(crate) fn run_schema_faults(layout: u8, ops: &[Op], max_io: u32) -> (bool, u
     kani::assume(fail_at >= 1 && fail_at <= max_io);
     let kind: u8 = kani::any();
     kani::assume(kind <= 3);
-    t().fail_at = fail_at;
-    t().fail_kind = kind;
+    set_fault(fail_at, kind);
     let mut c = open(&l, FileVersion::FormatV2);
     let mut m = Model { n: l.n, pos: None, valid: true };
     let n = l.n;
@@ -671,8 +670,7 @@ pub(crate) fn step_move_faults(layout: u8, forward: bool, max_io: u32) -> (bool,
     kani::assume(fail_at >= 1 && fail_at <= max_io);
     let kind: u8 = kani::any();
     kani::assume(kind <= 3);
-    t().fail_at = fail_at;
-    t().fail_kind = kind;
+    set_fault(fail_at, kind);
     let mut c = strong_state(&l, i, FileVersion::FormatV2);
     let expect = if forward { if i + 1 < n { Some(i + 1) } else { None } } else if i > 0 { Some(i - 1) } else { None };
     let res = if forward { c.move_on_next() } else { c.move_on_prev() };
@@ -751,13 +749,23 @@ pub(crate) fn step_clone(layout: u8, forward: bool, minlen: usize, maxlen: usize
 // SOME state satisfying RI-strong(i), on None in SOME RI-weak state. Used to split multi-step public calls at
 // the crate's own seams (<= seek = >= seek + one relative step; iterators = seek + steps), because a second
 // symbolic operation on the merged post-state of a real symbolic seek exhausts the solver's memory.
-pub(crate) static mut CONTRACT_LAYOUT: Layout = Layout { id: 0xC7, root: 0x5EED_00C1, levels: 0xC9, n: 0x5EED_00C2 };
+pub(crate) static mut CL_ID: usize = 0x5EED_00C0;
+pub(crate) static mut CL_ROOT: usize = 0x5EED_00C1;
+pub(crate) static mut CL_LEVELS: usize = 0x5EED_00C3;
+pub(crate) static mut CL_N: usize = 0x5EED_00C2;
+
+fn contract_layout() -> Layout {
+    unsafe { Layout { id: CL_ID as u8, root: CL_ROOT, levels: CL_LEVELS as u8, n: CL_N } }
+}
 
 pub(crate) static mut CONTRACT_WEAK: u8 = 0xC5;
 
 pub(crate) fn set_contract_layout(l: &Layout) {
     unsafe {
-        CONTRACT_LAYOUT = *l;
+        CL_ID = l.id as usize;
+        CL_ROOT = l.root;
+        CL_LEVELS = l.levels as usize;
+        CL_N = l.n;
         CONTRACT_WEAK = 0;
     }
 }
@@ -790,7 +798,7 @@ fn after_none_state(l: &Layout, version: FileVersion) -> Cur {
 /// One outcome per stub on purpose: building both and merging them is what exhausts the solver's memory; the
 /// harnesses split the probe space into the matching classes (`kani::assume`), so together they cover it.
 fn contract_result<R>(c: &mut ReaderCursor<R>, target: Option<usize>, which: u8) -> crate::Result<Option<(&'static [u8], &'static [u8])>> {
-    let l = unsafe { CONTRACT_LAYOUT };
+    let l = contract_layout();
     // the harnesses instantiate R = ModelFile only
     let c: &mut Cur = unsafe { &mut *(c as *mut ReaderCursor<R> as *mut Cur) };
     let version = c.reader.metadata.file_version;
@@ -806,8 +814,21 @@ fn contract_result<R>(c: &mut ReaderCursor<R>, target: Option<usize>, which: u8)
         Ok(Some(ac_entry(d, pd)))
     } else {
         kani::assume(target.is_none());
-        let new = if which == 2 { weak_state(&l, version) } else { after_none_state(&l, version) };
-        mem::forget(mem::replace(c, new));
+        if which == 2 {
+            let new = weak_state(&l, version);
+            mem::forget(mem::replace(c, new));
+        } else if which == 3 {
+            // <= seek that finds nothing: over-approximated by "fresh, or positioned on SOME entry with the root exhausted"
+            // (the exact state - positioned on the first entry - made CBMC report a spurious failure in c05_revprefix_firstcnone)
+            let new = after_none_state(&l, version);
+            mem::forget(mem::replace(c, new));
+        } else {
+            // >= seek that finds nothing: the cursor is as before the call, except that the root level is exhausted
+            if let Some(inner) = c.index_block_cursor.inner.as_mut() {
+                let cur = make_cursor(l.root, Some(block_count(l.root)));
+                mem::forget(mem::replace(&mut inner[0].1, cur));
+            }
+        }
         Ok(None)
     }
 }
@@ -815,24 +836,24 @@ fn contract_result<R>(c: &mut ReaderCursor<R>, target: Option<usize>, which: u8)
 // (inherent methods, so that their generics (impl-level R, method-level A) line up with the methods they replace)
 impl<R: io::Read + io::Seek> ReaderCursor<R> {
     pub(crate) fn ge_contract_some<A: AsRef<[u8]>>(&mut self, key: A) -> crate::Result<Option<(&[u8], &[u8])>> {
-        let n = unsafe { CONTRACT_LAYOUT.n };
+        let n = unsafe { CL_N };
         contract_result(self, ceiling(rank(key.as_ref()), n), 0)
     }
     pub(crate) fn ge_contract_none<A: AsRef<[u8]>>(&mut self, key: A) -> crate::Result<Option<(&[u8], &[u8])>> {
-        let n = unsafe { CONTRACT_LAYOUT.n };
+        let n = unsafe { CL_N };
         contract_result(self, ceiling(rank(key.as_ref()), n), 1)
     }
     pub(crate) fn ge_contract_none_weak<A: AsRef<[u8]>>(&mut self, key: A) -> crate::Result<Option<(&[u8], &[u8])>> {
-        let n = unsafe { CONTRACT_LAYOUT.n };
+        let n = unsafe { CL_N };
         contract_result(self, ceiling(rank(key.as_ref()), n), 2)
     }
     pub(crate) fn le_contract_some<A: AsRef<[u8]>>(&mut self, target_key: A) -> crate::Result<Option<(&[u8], &[u8])>> {
-        let n = unsafe { CONTRACT_LAYOUT.n };
+        let n = unsafe { CL_N };
         contract_result(self, floor(rank(target_key.as_ref()), n), 0)
     }
     pub(crate) fn le_contract_none<A: AsRef<[u8]>>(&mut self, target_key: A) -> crate::Result<Option<(&[u8], &[u8])>> {
-        let n = unsafe { CONTRACT_LAYOUT.n };
-        contract_result(self, floor(rank(target_key.as_ref()), n), 1)
+        let n = unsafe { CL_N };
+        contract_result(self, floor(rank(target_key.as_ref()), n), 3)
     }
 }
 
@@ -853,8 +874,15 @@ pub(crate) fn le_split(layout: u8, class: u8, weak: bool, minlen: usize, maxlen:
         _ => kani::assume(ceiling(qr, n).is_none()),
     }
     let version = if kani::any() { FileVersion::FormatV1 } else { FileVersion::FormatV2 };
-    // the state before the call is irrelevant: the first thing the <= seek does is the >= seek (contract)
-    let mut c = mk_reader_cursor(&l, None, None, version);
+    // state before the call: fresh, or positioned by an operation that returned an entry (the >= contract replaces it
+    // when it finds an entry and only exhausts the root level when it does not)
+    let mut c = if class < 2 || l.n == 0 || kani::any() {
+        mk_reader_cursor(&l, None, None, version)
+    } else {
+        let j: usize = kani::any();
+        kani::assume(j < l.n);
+        strong_state(&l, j, version)
+    };
     let expect = floor(qr, n);
     match eidx(c.move_on_key_lower_than_or_equal_to(q), n) {
         Ok(g) => assert!(g == expect, "C02: the <= seek did not return the floor of the probe"),
